@@ -109,7 +109,13 @@ def update_cache(ccode, cache_file_name):
                     f"Set $XONSH_CACHE_SCRIPTS=0, $XONSH_CACHE_EVERYTHING=0 to disable cache."
                 )
             return
-        with open(cache_file_name, "wb") as cfile:
+        try:
+            cfile = open(cache_file_name, "wb")
+        except OSError:
+            # e.g. the escaped file name is longer than NAME_MAX: the code
+            # simply stays uncached.
+            return
+        with cfile:
             cfile.write(XONSH_VERSION.encode() + b"\n")
             cfile.write(bytes(PYTHON_VERSION_INFO_BYTES) + b"\n")
             marshal.dump(ccode, cfile)
